@@ -5,12 +5,15 @@ S->I: TLC enumerates libraries over a fixed item vocabulary (modules, nested mod
       with signatures over i32/T/U, impl blocks with a method and a static method, constants, uses) x all
       item orders x at most one injected defect x one or two Add calls, and evaluates Registration!Add on
       each: the specified outcome (Ok / Err / left open) and, after Ok, every probe (path, kind,
-      signature) with the tag it must observe, plus paths that must NOT be usable.  The harness builds every
+      signature) with the tag it must observe, plus paths that must NOT be usable.  Mode "refuse": sequences of
+      two / three adds with a REFUSED one (a namesake of an earlier item with another value / tag / type): the items
+      of the earlier adds are probed again after the refusal and after the add that follows.  The harness builds every
       library with the public item constructors (a few fixed shapes with library!), calls Runtime::add
       under catch_unwind and compiles + runs a script per probe; outcomes and tags are compared here.
 I->S: seeded random libraries (nested up to 4 deep, 4 host types, up to 3 adds per runtime) are generated
-      and registered by the harness, which logs add outcomes and probe observations; TLC validates the
-      log against Registration (TraceRegistration.tla).
+      and registered by the harness, which logs add outcomes and probe observations (after a refused add: of
+      the items of the earlier adds, then the next library follows); TLC validates the log against Registration
+      (TraceRegistration.tla).
 """
 import copy
 import json
@@ -63,9 +66,9 @@ CONSTANTS
   Mode = "%s"
   Light = %s
 INVARIANTS Inv NoPanic Emit
-CHECK_DEADLOCK FALSE
+%sCHECK_DEADLOCK FALSE
 """ % (", ".join('"%s"' % b for b in BUILTIN_ROOT), USE_TREE_LEAVES if mode == "usetree" else 1, n, nd, mode,
-       "TRUE" if light else "FALSE"))
+       "TRUE" if light else "FALSE", "PROPERTIES RefusedKeeps\n" if mode == "refuse" else ""))
 
 
 def render_use_tree(tr):
@@ -230,11 +233,12 @@ def generate_cases(tier, ev):
     d = vlib.workdir(PID, "cfg")
     if tier == "quick":
         plan = [("single", 3, 3, True), ("split", 3, 0, True), ("readd", 2, 2, True), ("macro", 1, 0, True),
-                ("dup1", 1, 0, True), ("dup2", 1, 0, True), ("usetree", 1, 0, True), ("sig", 1, 0, True)]
+                ("dup1", 1, 0, True), ("dup2", 1, 0, True), ("usetree", 1, 0, True), ("sig", 1, 0, True),
+                ("refuse", 1, 0, True)]
     else:
         plan = [("single", 3, 3, False), ("single", 4, 2, True), ("split", 4, 0, True), ("readd", 3, 3, True),
                 ("macro", 1, 0, True), ("dup1", 1, 0, True), ("dup2", 1, 0, True), ("usetree", 1, 0, True),
-                ("sig", 1, 0, True)]
+                ("sig", 1, 0, True), ("refuse", 1, 0, False)]
     cases = []
     parts = []
     for (mode, n, nd, light) in plan:
@@ -361,6 +365,7 @@ def vacuity(cases, tier, ev):
     if missing_codes:
         raise vlib.ToolError("harness/src/tables/c18_sigs.rs lacks type codes %s of the spec: run tools/gen_c18_sigs.py" %
                              sorted(missing_codes)[:5])
+    refused_add_vacuity(cases, ev)
     need = DEFECTS + (DEFECTS_THOROUGH if tier != "quick" else [])
     missing = [x for x in need if defects[x] == 0] + [x for x in KINDS if kinds[x] == 0] + \
               [x for x in WHYS if whys[x] == 0] + [x for x in ("Ok", "Err", "Unspec") if outs[x] == 0] + \
@@ -370,6 +375,75 @@ def vacuity(cases, tier, ev):
         raise vlib.ToolError("case families missing from the generated cases (vacuous run): %s" % missing)
     ev.extra["case_families"] = {"defect": dict(defects), "item_kinds": dict(kinds), "err_reasons": dict(whys),
                                  "specified_outcomes": dict(outs), "probes": dict(probes)}
+
+
+# what the names of the base library of Mode "refuse" (RBase of spec/MCRegistration.tla) are (for counting only)
+REFUSE_TARGET = {"C2": "const", "C3": "const", "KU": "const", "C4": "assoc-const", "f3": "fn", "T": "type", "ma": "mod",
+                 "f1": "alias-of-fn", "C5": "alias-of-const", "g1": "method", "g2": "static-method"}
+REFUSE_SHAPES = ("ok-ref", "ok-ref-ok", "ok-ok-ref", "ok-ref-ref")
+
+
+def refused_add_vacuity(cases, ev):
+    """Anti-vacuity of the family 'a refused add leaves the items of earlier adds unchanged': every sequence shape x
+    every kind of earlier item x every kind of namesake must occur with a refused add that the specification calls Err,
+    followed by probes of the earlier items - for a constant a probe that reads its value."""
+    from collections import Counter
+    fam, reads, seqs = Counter(), Counter(), Counter()
+    nprobes = 0
+    for c in cases:
+        if c.get("mode") != "refuse":
+            continue
+        f = c["adds"][-1]["defect"].split("/")       # refuse/<shape>/<tk>/<name>/<col>/<pos>/<step>  |  refuse/<shape>/macro/<m>/<step>
+        shape, tk = f[1], f[2]
+        seqs["%s:%s" % (shape, ",".join(a["out"] for a in c["adds"]))] += 1
+        refused = [a for a in c["adds"] if a["defect"].endswith("/refused")]
+        if len(refused) != 1 or refused[0]["out"] != "Err" or not refused[0]["after"] or not refused[0]["probes"]:
+            raise vlib.ToolError("refused-add case %s: the add that must be refused is specified %s with %d probes" %
+                                 (c["adds"][-1]["defect"], [a["out"] for a in refused], sum(len(a["probes"]) for a in refused)))
+        if [a["out"] for a in c["adds"] if not a["defect"].split("/")[-1].startswith("refused")] != \
+                ["Ok"] * (len(c["adds"]) - sum(1 for a in c["adds"] if a["defect"].split("/")[-1].startswith("refused"))):
+            raise vlib.ToolError("refused-add case %s: an add that must succeed is specified %s" %
+                                 (c["adds"][-1]["defect"], [a["out"] for a in c["adds"]]))
+        r = refused[0]
+        asserted = [p for p in r["probes"] if p["tag"] >= 0]
+        nprobes += len(asserted)
+        if tk == "macro":
+            key = "%s/library!/%s" % (shape, f[3])
+        else:
+            name, col = f[3], f[4]
+            key = "%s/%s/%s<-%s" % (shape, tk, REFUSE_TARGET[name] if tk != "modkids" else "module-with-namesake-children", col)
+            if REFUSE_TARGET[name] in ("const", "assoc-const") and tk != "modkids":
+                # the constant that owns the name is read (for its value) after the refused add
+                owner = (["T"] if tk == "impl" else []) + [name]
+                if not any(p["kind"] == "const" and p["path"] == owner and (p["tag"] > 0 or p["obs"]) for p in asserted):
+                    raise vlib.ToolError("refused-add case %s: constant %s is not read after the refused add" % (r["defect"], owner))
+                reads["%s<-%s" % (REFUSE_TARGET[name], col)] += 1
+        fam[key] += 1
+        # every later add is followed by probes of the earlier constants as well
+        for a in c["adds"][c["adds"].index(r):]:
+            for owner in (["C2"], ["C3"], ["KU"], ["T", "C4"], ["ma", "C1"], ["ma", "n", "C5"]):
+                if not any(p["kind"] == "const" and p["path"] == owner and p["tag"] >= 0 for p in a["probes"]):
+                    raise vlib.ToolError("refused-add case %s: constant %s is not read after add %s" % (r["defect"], owner, a["defect"]))
+    must = []
+    for sh in REFUSE_SHAPES:
+        for t, cols in (("root/const", ("const-value", "const-type", "fn", "type", "mod")), ("root/fn", ("const-value", "fn", "type", "mod")),
+                        ("root/type", ("const-value", "fn", "type", "mod")), ("root/mod", ("const-value", "fn", "type", "mod")),
+                        ("root/alias-of-fn", ("const-value", "fn")), ("root/alias-of-const", ("const-value", "const-type", "fn")),
+                        ("impl/assoc-const", ("const-value", "const-type", "fn", "method")), ("impl/method", ("const-value", "method", "fn")),
+                        ("impl/static-method", ("const-value", "method", "fn")), ("modkids/module-with-namesake-children", ("mod",))):
+            must += ["%s/%s<-%s" % (sh, t, c) for c in cols]
+    for sh in ("ok-ref", "ok-ref-ok"):
+        must += ["%s/library!/%s" % (sh, m) for m in ("rconst", "rconstty", "rassoc", "rfn")]
+    missing = [m for m in must if fam[m] == 0]
+    if missing:
+        raise vlib.ToolError("refused-add families missing from the generated cases (vacuous run): %s" % missing[:8])
+    for m in ("const<-const-value", "const<-const-type", "assoc-const<-const-value", "assoc-const<-const-type"):
+        if reads[m] == 0:
+            raise vlib.ToolError("refused-add family: no constant is read after a refused %s" % m)
+    ev.extra["refused_add_families"] = dict(fam)
+    ev.extra["refused_add_sequences"] = dict(seqs)
+    ev.extra["refused_add_constant_value_reads"] = dict(reads)
+    ev.extra["refused_add_asserted_probes_after_refusal"] = nprobes
 
 
 def injected(add):
@@ -451,13 +525,24 @@ def compare(case, res, verd):
                         (a["defect"], got.get("stage"), got.get("msg"), libtxt(a)[:500]),
                         {"case": case, "add": k, "got": got})
             return False
-        if got["out"] != "ok":
+        # a refused add (specified Err, marked `after` by the specification): the probes that follow are those of the
+        # items of the EARLIER adds - they must be reachable and mean what they meant
+        kept = got["out"] == "err" and a["out"] == "Err" and a.get("after") is True and "probes" in got
+        if got["out"] != "ok" and not kept:
             break
         inj = injected_item(a)
         for p, pr in zip(a["probes"], got["probes"]):
             touches = inj is not None and (inj["name"] in p["path"] or (inj["k"] == "type" and inj["ty"] in ([p.get("r"), p.get("ty")] + list(p.get("ps", [])))))
             where = dict(what, probe_kind=p["kind"], via=p["via"], touches_injected="yes" if touches else "no")
             desc = "%s %s (%s)" % (p["kind"], ".".join(p["path"]), p["via"])
+            if kept:
+                where["after_refused_add"] = "yes"
+                desc = "[item of an earlier successful add, probed after Runtime::add REFUSED (%s) the library below] %s" % (
+                    got.get("msg"), desc)
+            elif any(b["out"] == "Err" for b in case["adds"][:k]):
+                where["after_refused_add"] = "earlier"
+                desc = "[an earlier add of this runtime was refused: %s] %s" % (
+                    "; then ".join("%s -> %s" % (libtxt(b)[:300], b["out"]) for b in case["adds"][:k]), desc)
             tyc = next((t for t in [p.get("r", 0), p.get("ty", 0)] + list(p.get("ps", [])) if t >= 5), 0)
             if tyc:
                 desc += " [signature over %s, i.e. Rust %s]" % (roto_ty(tyc), rust_ty(tyc))
@@ -586,6 +671,10 @@ def impl_to_spec(tier, ev, verd):
             cnt = Counter("%s:%s" % (t, v) for (t, v) in r.prints)
             ev.extra["recorded_spec_outcomes"] = {k.split(":")[1]: v for k, v in cnt.items() if k.startswith("OUTCOME")}
             ev.extra["recorded_probe_expectations"] = {k.split(":")[1]: v for k, v in cnt.items() if k.startswith("PROBE")}
+            kept = {k.split(":")[1]: v for k, v in cnt.items() if k.startswith("KEPT")}
+            ev.extra["recorded_probes_asserted_after_refused_add"] = kept
+            if not verd.violations and (kept.get("const", 0) == 0 or kept.get("fn", 0) == 0):
+                raise vlib.ToolError("recorded runs never probe a constant / function of an earlier add after a refused add: %s" % kept)
             for e in flat:
                 if e["op"] == "add":
                     nadds += 1
@@ -635,7 +724,7 @@ def run(tier):
     verd = Verdicts(PID)
     vlib.build_harness(["c18"])
     ev.rule = ("cases = libraries emitted by TLC from MCRegistration (vocabulary of 13 items x all orders x at most one "
-               "injected defect x one/two adds) replayed into roto::Runtime; distinct = distinct concrete library "
+               "injected defect x one/two adds; refused adds: 4 sequence shapes of 2-3 adds x namesake of every kind of earlier item) replayed into roto::Runtime; distinct = distinct concrete library "
                "sequences; non-trivial = at least two items are involved (nesting, several items or several adds), "
                "i.e. the outcome depends on scope lookups between items and not on one constructor call")
     try:
@@ -652,7 +741,8 @@ def run(tier):
         "exhaustive over the stated vocabulary and bounds only; deeper nesting and larger libraries are seeded random (I->S)",
         "where the property statement is silent (use of a missing/empty path, alias name equal to a declared name, "
         "where the alias of a use inside a module lands, items other than fn/const inside impl) only 'no panic' is required",
-        "error messages are not compared; after an Err nothing is asserted about the runtime",
+        "error messages are not compared; after an Err nothing is asserted about the items of the refused library (it may "
+        "have been registered in part: its names and new Rust types are left open), the items of earlier adds must be unchanged",
     ]
     rc = verd.finish()
     ev.write(len(verd.violations))
